@@ -2,6 +2,7 @@
 
 Rules are phrased over this canonical form so that behaviour-preserving respellings do not reach them:
 
+ N0  `if <platform probe that is true on every supported interpreter>: A else: B` -> A   (cfg._FOLD_TRUE)
  N1  `v = e` immediately followed by `return v` (v not captured by a nested def) ->  `return e`
  N2  `not (a OP b)`  ->  `a NEGOP b`   (==/!=, is/is not, in/not in, </>=, >/<=);  `not not x` in a test position -> `x`
      `CONST == x` / `CONST != x`  ->  `x == CONST` / `x != CONST`
@@ -25,6 +26,7 @@ Rules are phrased over this canonical form so that behaviour-preserving respelli
      `if not any(C for t in xs): S` -> `for t in xs: if C: return` then S
  N19 a local bound once at the top of a function to a plain attribute chain whose attributes the function never assigns
      (`registered = self.__registered_classes`) is replaced by the chain where it is read
+ N21 `cast(T, e)` -> `e`;  N14b `if T: return True` + `return False` -> `return T` for boolean-valued T
  N18 a self-assignment `x = x` is dropped
  N6  `v = []` directly followed by `for t in xs: [if c:] v.append(e)` -> `v = [e for t in xs if c]`
 
@@ -70,9 +72,24 @@ class _Norm(ast.NodeTransformer):
             return ast.copy_location(ast.Compare(n.comparators[0], n.ops, [n.left]), n)
         return n
 
+    def visit_BoolOp(self, n: ast.BoolOp):
+        # N22: `a or (b or c)` -> `a or b or c`
+        self.generic_visit(n)
+        flat = []
+        for v in n.values:
+            if isinstance(v, ast.BoolOp) and type(v.op) is type(n.op):
+                flat.extend(v.values)
+            else:
+                flat.append(v)
+        n.values = flat
+        return n
+
     # ---- N13 -----------------------------------------------------------------------------------
     def visit_Call(self, n: ast.Call):
         self.generic_visit(n)
+        # N21: typing.cast(T, e) is e
+        if isinstance(n.func, ast.Name) and n.func.id == 'cast' and len(n.args) == 2 and not n.keywords:
+            return n.args[1]
         if (isinstance(n.func, ast.Name) and n.func.id in ('any', 'all') and len(n.args) == 1 and not n.keywords
                 and isinstance(n.args[0], (ast.GeneratorExp, ast.ListComp)) and len(n.args[0].generators) == 1):
             g = n.args[0].generators[0]
@@ -97,6 +114,13 @@ class _Norm(ast.NodeTransformer):
 
     def visit_If(self, n: ast.If):
         self.generic_visit(n)
+        # N0: platform probes that are constant on every supported interpreter (the same table the CFG folds)
+        try:
+            from .cfg import _FOLD_TRUE
+            if ast.unparse(n.test) in _FOLD_TRUE:
+                return n.body
+        except ImportError:
+            pass
         if len(n.orelse) == 1 and isinstance(n.orelse[0], ast.Pass):
             n.orelse = []
         if n.orelse:
@@ -226,6 +250,12 @@ class _Norm(ast.NodeTransformer):
                             and t.targets[0].id != v and t.targets[0].id not in free
                             and not any(isinstance(n, ast.Name) and n.id == v for n in ast.walk(t))
                             and not isinstance(t.value, (ast.Yield, ast.YieldFrom, ast.Await))):
+                        continue
+                    # a literal (constants, displays of constants and global names) can be carried across any statement that
+                    # neither mentions the temporary nor re-binds a name of the literal
+                    if (_literal(s.value) and not any(isinstance(n, ast.Name) and (n.id == v or (n.id in free and not isinstance(n.ctx, ast.Load)))
+                                                      for n in ast.walk(t))
+                            and not isinstance(t, (ast.FunctionDef, ast.AsyncFunctionDef, ast.ClassDef))):
                         continue
                     break
                 pairs.setdefault(v, []).append(hit)
@@ -457,6 +487,17 @@ class _Norm(ast.NodeTransformer):
                 s, nx = out[i], out[i + 1]
                 if (isinstance(s, ast.If) and not s.orelse and len(s.body) == 1 and isinstance(s.body[0], ast.Return)
                         and isinstance(s.body[0].value, ast.Constant) and isinstance(s.body[0].value.value, bool)
+                        and isinstance(nx, ast.Return) and isinstance(nx.value, ast.Constant) and isinstance(nx.value.value, bool)
+                        and nx.value.value is not s.body[0].value.value and _boolean_valued(s.test)):
+                    # `if T: return True` + `return False` -> `return T`   (T is a comparison / isinstance / and-or of such)
+                    t = s.test
+                    if s.body[0].value.value is False:
+                        t = _Norm().visit(ast.copy_location(ast.UnaryOp(ast.Not(), t), t))
+                    out[i:i + 2] = [ast.copy_location(ast.Return(t), s)]
+                    changed = True
+                    break
+                if (isinstance(s, ast.If) and not s.orelse and len(s.body) == 1 and isinstance(s.body[0], ast.Return)
+                        and isinstance(s.body[0].value, ast.Constant) and isinstance(s.body[0].value.value, bool)
                         and isinstance(nx, ast.Return) and nx.value is not None and not isinstance(nx.value, ast.Constant)):
                     if s.body[0].value.value is False:
                         t = s.test.operand if isinstance(s.test, ast.UnaryOp) and isinstance(s.test.op, ast.Not) else \
@@ -502,6 +543,22 @@ class _Norm(ast.NodeTransformer):
                 while len(body) == 1 and isinstance(body[0], ast.If) and not body[0].orelse:
                     conds.append(body[0].test)
                     body = body[0].body
+                # N6b: `v.extend(E)` in the loop -> one more generator: [m for t in xs if c for m in E]
+                if (len(body) == 1 and isinstance(body[0], ast.Expr) and isinstance(body[0].value, ast.Call)
+                        and isinstance(body[0].value.func, ast.Attribute) and body[0].value.func.attr == 'extend'
+                        and isinstance(body[0].value.func.value, ast.Name) and body[0].value.func.value.id == v
+                        and len(body[0].value.args) == 1 and not body[0].value.keywords):
+                    src = body[0].value.args[0]
+                    mentions = any(isinstance(n, ast.Name) and n.id == v for x in [src, nx.iter, nx.target] + conds for n in ast.walk(x))
+                    used = {n.id for n in ast.walk(fn) if isinstance(n, ast.Name)}
+                    free_names = [nm for nm in ('m', 'each', 'elem', 'm_') if nm not in used]
+                    if not mentions and free_names:
+                        mv = free_names[0]
+                        comp = ast.ListComp(ast.Name(mv, ast.Load()), [ast.comprehension(nx.target, nx.iter, conds, 0),
+                                                                        ast.comprehension(ast.Name(mv, ast.Store()), src, [], 0)])
+                        out.append(ast.copy_location(ast.Assign([ast.Name(v, ast.Store())], ast.copy_location(comp, nx)), nx))
+                        i += 2
+                        continue
                 if (len(body) == 1 and isinstance(body[0], ast.Expr) and isinstance(body[0].value, ast.Call)
                         and isinstance(body[0].value.func, ast.Attribute) and body[0].value.func.attr == 'append'
                         and isinstance(body[0].value.func.value, ast.Name) and body[0].value.func.value.id == v
@@ -516,6 +573,20 @@ class _Norm(ast.NodeTransformer):
             out.append(s)
             i += 1
         return out
+
+
+def _boolean_valued(e: ast.AST) -> bool:
+    """expressions whose value is True or False whatever their operands are"""
+    if isinstance(e, ast.Compare):
+        return all(isinstance(o, (ast.Is, ast.IsNot, ast.In, ast.NotIn)) for o in e.ops) or all(
+            isinstance(x, (ast.Constant, ast.Name, ast.Attribute, ast.Call, ast.Subscript)) for x in [e.left] + e.comparators)
+    if isinstance(e, ast.UnaryOp) and isinstance(e.op, ast.Not):
+        return True
+    if isinstance(e, ast.BoolOp):
+        return all(_boolean_valued(v) for v in e.values)
+    if isinstance(e, ast.Call) and isinstance(e.func, ast.Name) and e.func.id in ('isinstance', 'issubclass', 'hasattr', 'callable', 'bool', 'any', 'all'):
+        return True
+    return False
 
 
 def _is_chain(e: ast.AST) -> bool:
